@@ -166,7 +166,9 @@ pub const CONTENT_PATTERNS: &[&str] = &[
     "zzz-never-matche[s]",
     "[0-9]+",
 ];
-pub const INVALID_PATTERNS: &[&str] = &["(", "[a-", "(?P<value>", "*a", "a{2,1}", "\\"];
+pub const INVALID_PATTERNS: &[&str] = &[
+    "(", "[a-", "(?P<value>", "*a", "a{2,1}", "\\", "a)(b", "x)|(y", ")", "[a-z]+)=(?:[0-9]", "(?P<value>[a-z]+",
+];
 
 fn is_lower_word(s: &str) -> bool {
     !s.is_empty() && s.bytes().all(|b| b.is_ascii_lowercase())
